@@ -11,7 +11,7 @@ CLAIMS = {
     "C01": dict(
         ref="5.1",
         text="Seeded search over CDCL schedules (decision variable/phase overrides through guarded hooks, Luby factor, restart and conflict "
-             "budgets, learned-clause GC threshold) and formulas; every returned assignment is checked against every clause and assumption "
+             "budgets, learned-clause GC threshold and VSIDS decay rebuilt as simulator knobs) and formulas; every returned assignment is checked against every clause and assumption "
              "and for pairwise distinctness. Self-certifying oracle; sampling, not proof.",
         note="Trusts the clause evaluator in sim/oracles/satref.py. Perturbed decision schedules are legal CDCL executions of the same code "
              "but not the shipped heuristic; each replay says whether it needs the hook (shipped_path).",
@@ -40,7 +40,7 @@ CLAIMS = {
     "C12": dict(
         ref="5.4",
         text="Two replicas (Rust extension built by the check from /repo/rust, Python bodies) behind the real router; one seeded request "
-             "stream is issued under backend=rust/python/default, plus the injected fault 'extension unavailable'; answers compared per "
+             "stream is issued under backend=rust/python/default on one shared input list (edited in place between two rounds), plus the injected fault 'extension unavailable'; answers compared per "
              "the statement and paths/orders validated against the problem.",
         note="Trusts cargo's offline build of the working tree and the validators in sim/props/backends.py.",
         tech="deterministic simulation: replica equivalence under back-end selection and extension-unavailable fault"),
@@ -103,6 +103,12 @@ def main():
     hc = os.path.join(VERIF, "hook_commits.txt")
     if os.path.exists(hc):
         hook_commits = [l.split()[0] for l in open(hc) if l.strip() and not l.startswith("#")]
+    import glob
+    n_own = len(glob.glob(os.path.join(VERIF, "selftest", "mutants", "*.diff")))
+    metas = [json.load(open(f)) for f in glob.glob(os.path.join(VERIF, "seeded", "*", "meta.json"))]
+    n_seeded = sum(1 for m in metas if m.get("confirmed"))
+    n_blind = sum(1 for m in metas if m.get("known_blind_spot"))
+    NOTES_PLACEHOLDER = ""
     man = {
         "version": 1,
         "setup_cmd": "./simcheck setup",
@@ -119,8 +125,10 @@ def main():
         }],
         "checks": [],
         "not_applicable": [],
-        "notes": "All claimed checks are level 'exploration' (seeded sampling of schedules and fault sequences; one VERIF_SEED decides workload, schedule and fault plan; violations come with a minimised replay file re-run twice in fresh interpreters, or with a block-prefix replay when the defect depends on state left by earlier calls). 22 genuine defects were found and repaired by 'fix:' commits in /repo; they are listed in known_findings.json as 'fixed:' entries whose reproducers run first in every check (no open finding remains, so no check prints KNOWN-FINDING on this tree). Self-tests: ./simcheck selftest determinism | sensitivity (106 mutants incl. 100+ independent seeded changes under seeded/) | findings. DESIGN.md section 10 records what was built, the defects, the seeded changes and the mutation sweeps.",
+        "notes": NOTES_PLACEHOLDER + "All claimed checks are level 'exploration' (seeded sampling of schedules and fault sequences; one VERIF_SEED decides workload, schedule and fault plan; violations come with a minimised replay file re-run twice in fresh interpreters, or with a block-prefix replay when the defect depends on state left by earlier calls). 22 genuine defects were found and repaired by 'fix:' commits in /repo; they are listed in known_findings.json as 'fixed:' entries whose reproducers run first in every check (no open finding remains, so no check prints KNOWN-FINDING on this tree). Self-tests: ./simcheck selftest determinism | sensitivity ({n_own} own mutants + {n_seeded} independent seeded changes under seeded/, {n_blind} of them a documented blind spot) | findings. DESIGN.md section 10 records what was built, the defects, the seeded changes and the mutation sweeps.",
     }
+    for k, v in (("{n_own}", n_own), ("{n_seeded}", n_seeded), ("{n_blind}", n_blind)):
+        man["notes"] = man["notes"].replace(k, str(v))
     for p in sorted(CLAIMS):
         c = CLAIMS[p]
         if p in built:
